@@ -76,7 +76,7 @@ void body(const Cfg& c) {
     size_t nbuffers = 0, mixed_buffers = 0;
     {
         osmium::thread::Pool pool{c.pool, 0};
-        osmium::io::File file{g_dir + (c.big ? "/inbig." : "/in.") + c.fmt};
+        osmium::io::File file{c.fmt == "pbfz" ? g_dir + "/inz.pbf" : g_dir + (c.big ? "/inbig." : "/in.") + c.fmt};      // pbfz: zlib-compressed blobs (the decoders decompress)
         try {
             osmium::io::Reader reader{file, pool, static_cast<osmium::osm_entity_bits::type>(c.mask),
                                       c.meta ? osmium::io::read_meta::yes : osmium::io::read_meta::no,
@@ -132,6 +132,7 @@ int main(int argc, char** argv) {
     write_file(g_dir + "/in.osm", to_xml(g_data));
     write_pbf(g_dir + "/in.pbf", g_data, true);
     write_file(g_dir + "/in.o5m", to_o5m(g_data));
+    write_pbf(g_dir + "/inz.pbf", g_data, true, "zlib");
     g_data_big = dataset_big();
     write_file(g_dir + "/inbig.opl", to_opl(g_data_big));
     write_file(g_dir + "/inbig.osm", to_xml(g_data_big));
@@ -159,7 +160,7 @@ int main(int argc, char** argv) {
         for (auto& j : jobs) { std::string name = "D:" + j.c.name(); if (m.replay_mode()) m.run(name, [&] { body(j.c); }, j.o); else { vsched::Options o = j.o; o.min_bound = 0; o.max_bound = 0; m.run(name, [&] { body(j.c); }, o); } }
         if (capsweep) {
             int rc2 = m.finish();
-            for (auto f : {"/in.opl", "/in.osm", "/in.pbf", "/in.o5m", "/inbig.opl", "/inbig.osm", "/inbig.pbf", "/inbig.o5m"}) unlink((g_dir + f).c_str());
+            for (auto f : {"/inz.pbf", "/in.opl", "/in.osm", "/in.pbf", "/in.o5m", "/inbig.opl", "/inbig.osm", "/inbig.pbf", "/inbig.o5m"}) unlink((g_dir + f).c_str());
             rmdir(g_dir.c_str());
             return rc2;
         }
@@ -173,6 +174,7 @@ int main(int argc, char** argv) {
             {fmt, pool, "", 5, false, false, true, false},
         };
         if (std::string(fmt) == "pbf") cover.push_back({fmt, pool, "2", 7, false, true, false, true});
+        if (std::string(fmt) == "pbf" && pool == 2) cover.push_back({"pbfz", pool, "2", 7, false, true, true, false});      // zlib blobs: two workers decompress at the same time (uncompress() is a scheduling point)
         { Cfg sc{fmt, pool, "2", 7, false, true, true, false}; sc.slow = true; cover.push_back(sc); }
         { Cfg bc{fmt, pool, "2", 7, false, true, true, false}; bc.big = true; cover.push_back(bc); }       // objects larger than the parser buffers
         { Cfg bc{fmt, pool, "3", 6, true, true, true, true}; bc.big = true; cover.push_back(bc); }         // ... with buffers_type::single and the node-less mask (a big way is the first selected object)      // pipeline ahead of the consumer: every queue full before each read()
@@ -180,7 +182,7 @@ int main(int argc, char** argv) {
         // reader has ~450 decision points per execution (~10^5 schedules per configuration at bound 2): bound <= 1 in quick
         for (auto& c : cover) {
             const std::string f = fmt;
-            const int kq = (c.big || c.slow) ? 1 : (f == "pbf" || f == "o5m") ? 2 : (f == "opl" && pool == 2 && c.qsize == "2") ? 2 : 1;
+            const int kq = (c.big || c.slow) ? 1 : (f == "pbf" || f == "o5m" || c.fmt == "pbfz") ? 2 : (f == "opl" && pool == 2 && c.qsize == "2") ? 2 : 1;
             add(c, T ? 3 : kq, true, 16);
         }
     }
@@ -220,7 +222,7 @@ int main(int argc, char** argv) {
         if (T) for (size_t i = n_deep; i < jobs.size(); ++i) if (jobs[i].o.max_bound >= 1) run_job(jobs[i], 1);
     }
     int rc = m.finish();
-    for (auto f : {"/in.opl", "/in.osm", "/in.pbf", "/in.o5m", "/inbig.opl", "/inbig.osm", "/inbig.pbf", "/inbig.o5m"}) unlink((g_dir + f).c_str());
+    for (auto f : {"/inz.pbf", "/in.opl", "/in.osm", "/in.pbf", "/in.o5m", "/inbig.opl", "/inbig.osm", "/inbig.pbf", "/inbig.o5m"}) unlink((g_dir + f).c_str());
     rmdir(g_dir.c_str());
     return rc;
 }
